@@ -299,14 +299,37 @@ func pwCase(k int) {
 		for range w.Messages() {
 		}
 	}()
+	// cancels for requests that are not queued (never made, already cancelled) must not free queue slots
+	bogus := r.Intn(5)
+	for i := 0; i < bogus; i++ {
+		if r.Intn(2) == 0 {
+			w.CancelRequest(peerprotocol.CancelMessage{RequestMessage: peerprotocol.RequestMessage{Index: uint32(1000 + i), Begin: 0, Length: 16384}})
+			bogus--
+			i--
+			if bogus <= 0 {
+				break
+			}
+		}
+	}
 	for i := 0; i < nreq; i++ {
 		w.SendPiece(peerprotocol.RequestMessage{Index: uint32(i), Begin: 0, Length: 16384}, zeroReader{})
+		if bogus > 0 && r.Intn(3) == 0 {
+			w.CancelRequest(peerprotocol.CancelMessage{RequestMessage: peerprotocol.RequestMessage{Index: uint32(2000 + i), Begin: 0, Length: 16384}})
+			bogus--
+		}
 	}
 	cancels := 0
 	if r.Intn(3) == 0 {
-		// cancel one that is (probably) still queued
-		w.CancelRequest(peerprotocol.CancelMessage{RequestMessage: peerprotocol.RequestMessage{Index: uint32(max - 1), Begin: 0, Length: 16384}})
+		// cancel one that is (probably) still queued, twice
+		cm := peerprotocol.CancelMessage{RequestMessage: peerprotocol.RequestMessage{Index: uint32(max - 1), Begin: 0, Length: 16384}}
+		w.CancelRequest(cm)
+		w.CancelRequest(cm)
 		cancels = 1
+		// the freed slot may be taken again, the doubly cancelled one must not free a second slot
+		for i := 0; i < 3; i++ {
+			w.SendPiece(peerprotocol.RequestMessage{Index: uint32(3000 + i), Begin: 0, Length: 16384}, zeroReader{})
+		}
+		nreq += 3
 	}
 	w.SendMessage(peerprotocol.HaveMessage{Index: 7}) // marker: everything queued before it has been decided
 	pieces, rejects := 0, 0
